@@ -700,7 +700,8 @@ static int cmd_exec (const Args &a)
 	if (!J::load (a.get ("plan"), plan)) return 2 ;
 	if (plan.has ("plan")) { J inner = plan.at ("plan") ; plan = inner ; }
 	g_os = new SimOS ;
-	Result r = execute (plan) ;
+	ExecOpts xo ; if (a.kv.count ("pt")) { xo.passthrough = true ; xo.pt_root = a.get ("pt") ; }
+	Result r = execute (plan, xo) ;
 	for (size_t t = 0 ; t < r.transcript.size () ; t++)
 		for (size_t k = 0 ; k < r.transcript [t].size () ; k++)
 		{	const Rec &x = r.transcript [t][k] ;
@@ -725,6 +726,61 @@ static int cmd_formats ()
 	return 0 ;
 }
 
+// ------------------------------------------------------------------------------------------
+// ptcheck: the same fault-free plans on SimOS and with the library's system calls passed through to the real kernel
+
+static int cmd_ptcheck (const Args &a)
+{	const Profile *prof = find_profile (a.pos.size () ? a.pos [0] : "") ;
+	if (!prof) { fprintf (stderr, "unknown profile\n") ; return 2 ; }
+	uint64_t seed = (uint64_t) a.geti ("seed", 1), start = (uint64_t) a.geti ("start", 0), count = (uint64_t) a.geti ("count", 200), stride = (uint64_t) a.geti ("stride", 1) ;
+	std::string root = a.get ("root", g_tmpdir + "/pt." + std::to_string ((int) getpid ())) ;
+	g_os = new SimOS ;
+	uint64_t checked = 0, mism = 0, skipped = 0, syscalls = 0 ;
+	std::string first ;
+	for (uint64_t k = 0 ; k < count ; k++)
+	{	uint64_t idx = start + k * stride ;
+		J plan = prof->gen (seed, idx) ;
+		if (!plan.has ("tasks") || plan.at ("tasks").size () == 0) { skipped ++ ; continue ; }
+		// descriptor-level routes only make sense through the kernel: everything goes by path, no faults, no benign schedules
+		bool ok = true ;
+		plan.erase ("faults") ; plan.erase ("io") ;
+		const Fmt *f = find_format_name (plan.at ("cfg").gets ("fmt")) ;
+		if (!f) { skipped ++ ; continue ; }
+		plan ["cfg"]["route"] = "path" ; plan ["cfg"].erase ("fd0") ;
+		for (auto &t : plan ["tasks"].a) for (auto &op : t ["ops"].a)
+		{	if (op.has ("route")) { std::string r = op.gets ("route") ; if (r == "fifo" || r == "embed") ok = false ; else op ["route"] = "path" ; }
+			std::string kind = op.gets ("op") ; if (kind == "crash" || kind == "badopen" || kind == "bad" || kind == "storm") ok = false ;
+		}
+		if (!ok) { skipped ++ ; continue ; }
+		ExecOpts e1 ; Result r1 = execute (plan, e1) ;
+		ExecOpts e2 ; e2.passthrough = true ; e2.pt_root = root ; Result r2 = execute (plan, e2) ;
+		checked ++ ; syscalls += r1.io.steps ;
+		std::string why ;
+		if (a.kv.count ("simsim")) { ExecOpts e3 ; r2 = execute (plan, e3) ; }		// control: the simulated run against itself
+		if (r1.transcript.size () != r2.transcript.size ()) why = "task count" ;
+		for (size_t t = 0 ; why.empty () && t < r1.transcript.size () ; t++)
+		{	if (r1.transcript [t].size () != r2.transcript [t].size ()) { why = "transcript length" ; break ; }
+			for (size_t o = 0 ; o < r1.transcript [t].size () ; o++)
+			{	const Rec &x = r1.transcript [t][o], &y = r2.transcript [t][o] ;
+				if (x.api != y.api || x.ret != y.ret || x.err != y.err || x.dh != y.dh || x.skipped != y.skipped)
+				{	char b [300] ; snprintf (b, sizeof (b), "task %zu op %zu (%s): sim ret=%lld err=%d dh=%llx / kernel ret=%lld err=%d dh=%llx", t, o, x.api.c_str (), (long long) x.ret, x.err, (unsigned long long) x.dh, (long long) y.ret, y.err, (unsigned long long) y.dh) ; why = b ; break ; }
+			}
+		}
+		if (why.empty ())
+		{	for (auto &kv : r1.stores) { auto it = r2.stores.find (kv.first) ; if (it == r2.stores.end () || it->second != kv.second) { why = "store " + kv.first + " differs" ; break ; } }
+			if (why.empty () && r1.stores.size () != r2.stores.size ()) why = "set of stores differs" ;
+		}
+		if (why.empty () && r1.viols.size () != r2.viols.size ()) why = "oracle verdicts differ" ;
+		if (!why.empty ()) { mism ++ ; if (first.empty ()) first = "idx " + std::to_string (idx) + ": " + why ;
+			if (getenv ("VERIF_PT_DEBUG")) for (size_t q = 0 ; q < r1.obs.size () && q < r2.obs.size () ; q++) if (r1.obs [q].dump () != r2.obs [q].dump ()) { printf ("OBS1 %s\nOBS2 %s\n", r1.obs [q].dump ().c_str (), r2.obs [q].dump ().c_str ()) ; break ; } }
+	}
+	g_os->pt_root = root ; g_os->pt_wipe () ;
+	rmdir ((root + "/cwd").c_str ()) ; rmdir ((root + "/tmp").c_str ()) ; rmdir (root.c_str ()) ;
+	printf ("PTCHECK profile=%s checked=%llu mismatches=%llu skipped=%llu sim_io_steps=%llu\n", prof->id, (unsigned long long) checked, (unsigned long long) mism, (unsigned long long) skipped, (unsigned long long) syscalls) ;
+	if (!first.empty ()) printf ("  first: %s\n", first.c_str ()) ;
+	return mism ? 1 : 0 ;
+}
+
 int main (int argc, char **argv)
 {	setenv ("TMPDIR", "/sim/tmp", 1) ;
 	if (argc < 2) { fprintf (stderr, "usage: sndsim run|gen|one|replay|shrink|gate|formats ...\n") ; return 2 ; }
@@ -739,6 +795,7 @@ int main (int argc, char **argv)
 	if (cmd == "replay") return cmd_replay (a) ;
 	if (cmd == "shrink") return cmd_shrink (a) ;
 	if (cmd == "gate") return cmd_gate (a) ;
+	if (cmd == "ptcheck") return cmd_ptcheck (a) ;
 	if (cmd == "formats") return cmd_formats () ;
 	if (cmd == "exec") return cmd_exec (a) ;
 	fprintf (stderr, "unknown command %s\n", cmd.c_str ()) ;
